@@ -28,7 +28,8 @@ Inductive cpc :=
 | CUnlockD (b : bucket) (* waiter: deferred Unlock, Next returns data *)
 | CUnlockNil            (* waiter: deferred Unlock, Next returns nil; poll returns and closes done *)
 | CWrite (b : bucket)   (* the wrapped writer's Write *)
-| CDone.                (* poll returned, Writer.done closed *)
+| CDone                 (* poll returned, Writer.done closed *)
+| CTryLast.             (* the context is done: one more TryNext, so that data set before the cancellation is drained *)
 
 Inductive gpc := GAwait | GLock | GBcast | GUnlock | GDone.
 Inductive kpc := KIdle | KAwait | KDone.
@@ -92,7 +93,7 @@ Definition cons_step (w : wst) : option (wlbl * wst) :=
             end)
   | CIsDone =>
       Some (WIsDone,
-            if cancelled w then (if waiter w then set_cons w CUnlockNil else set_cons w CDone)
+            if cancelled w then set_cons w CTryLast
             else set_cons w (if waiter w then CWait else CSleep))
   | CWait => Some (WWait, set_mu_cons w false (CParked false))
   | CParked sig => if sig && negb (mu w) then Some (WWake, set_mu_cons w true CTry) else None
@@ -106,6 +107,14 @@ Definition cons_step (w : wst) : option (wlbl * wst) :=
                cancelled := cancelled w; pb := pb w; wreturned := wreturned w;
                wdelivered := wdelivered w ++ [snd b]; g_lost := g_lost w |})
   | CDone => None
+  | CTryLast =>
+      let '(l, d', got) := cstep (d w) in
+      let w' := set_d w d' in
+      Some (WRing l,
+            match got with
+            | Some b => set_cons w' (if waiter w then CUnlockD b else CWrite b)
+            | None => if waiter w then set_cons w' CUnlockNil else set_cons w' CDone
+            end)
   end.
 
 Definition cancel_step (w : wst) : option (wlbl * wst) :=
